@@ -279,7 +279,12 @@ func c15(args []string) int {
 				got := harness.DiagStrings(d)
 				if !equalStrings(got, want) {
 					ev.Violate(evidence.Violation{Key: "retarget|" + firstDiffChecker(got, want), What: "after SetGoVersion on a live context the checkers still use the version they were created with",
-						Observed: fmt.Sprintf("%s after retargeting to %q: only here %v; only with a set created for that version %v", p.ID, v, diffOnly(got, want), diffOnly(want, got)), Replay: func() map[string]interface{} { m := progReplay(p, ""); m["goVersion"] = v; m["created_with"] = "1.21"; return m }()})
+						Observed: fmt.Sprintf("%s after retargeting to %q: only here %v; only with a set created for that version %v", p.ID, v, diffOnly(got, want), diffOnly(want, got)), Replay: func() map[string]interface{} {
+							m := progReplay(p, "")
+							m["goVersion"] = v
+							m["created_with"] = "1.21"
+							return m
+						}()})
 					break
 				}
 			}
